@@ -327,6 +327,7 @@ type FuncContract struct {
 	Inline    bool
 	Pure      bool
 	Trusted   bool // contract is assumed, body not verified (listed as assumption)
+	Unchecked bool // extern contract on an lnd function whose body is deliberately not verified against it
 	Modifies  []Clause
 	ModGiven  bool
 	ModAssumed bool // the frame is assumed, not checked (listed as an assumption)
@@ -361,7 +362,7 @@ var clauseKeywords = map[string]bool{
 	"spec": true, "func": true, "extern": true, "lemma": true, "props": true, "requires": true,
 	"ensures": true, "nowrap": true, "nowrap-arith": true, "nopanic": true, "bounds-safe": true, "single-exit": true, "theory": true, "inline": true, "pure": true,
 	"modifies": true, "site": true, "covers-nonnil-returns": true, "loop": true, "let": true,
-	"trusted": true, "effect-free": true, "inline-pkg": true, "replay": true, "load-pkg": true, "inline-func": true, "axiom": true, "uses": true, "modifies-assumed": true,
+	"trusted": true, "unchecked": true, "effect-free": true, "inline-pkg": true, "replay": true, "load-pkg": true, "inline-func": true, "axiom": true, "uses": true, "modifies-assumed": true,
 }
 
 // ParseContractFile reads the //@ lines of a contract file and groups them into clauses.
@@ -585,6 +586,8 @@ func ParseContractFile(path, pkgPath string) (*ContractFile, error) {
 			cur.Inline = true
 		case "pure":
 			cur.Pure = true
+		case "unchecked":
+			cur.Unchecked = true
 		case "trusted":
 			cur.Trusted = true
 		case "replay":
